@@ -832,6 +832,9 @@ func (h *hctx) liveReport(r *runner) {
 	} else if r.deadOut != nil && os.Getenv("VERIF_C05_DEBUG") != "" && len(r.imgs) > 0 {
 		im := r.imgs[len(r.imgs)-1]
 		h.report(r, im, Fault{Kind: "clean"}, "live", nil, im.NRecs, r.deadOut, verdict{Sig: "DEBUG-clean-close-then-reopen-fails", Msg: r.err.Error()})
+	} else if r.deadOut != nil && h.depth > 0 {
+		// loud failure: admissible; recorded
+		h.st.add("clean_close_then_reopen_failed_after_recovery."+r.deadOut.Err, 1)
 	} else if r.err != nil {
 		h.e.c.Inconclusive(fmt.Sprintf("history %d (depth %d) could not be executed: %v", h.id, h.depth, r.err))
 		h.st.add("histories_not_executable", 1)
